@@ -1135,6 +1135,15 @@ impl<'cx> TyGenContext<'_, 'cx> {
 
     /// Generates a Dart helper class for a slice type.
     fn gen_slice(&mut self, slice: &hir::Slice) -> &'static str {
+        // `&[DiplomatByte]` shares the `_SliceUint8` helper class with `&[u8]` (its ByteBuffer
+        // conversions are handled at the use sites), so the helper is always generated for u8
+        let canonical;
+        let slice = if let hir::Slice::Primitive(b, hir::PrimitiveType::Byte) = slice {
+            canonical = hir::Slice::Primitive(*b, hir::PrimitiveType::Int(hir::IntType::U8));
+            &canonical
+        } else {
+            slice
+        };
         let slice_ty = self.formatter.fmt_slice_type(slice);
 
         if self.helper_classes.contains_key(slice_ty) {
